@@ -32,8 +32,8 @@ func c18resp(status int, body []byte) *http.Response {
 	}
 }
 
-// c18normalise is the line-ending repair that the classifier of the proposed
-// known finding "c18-legacy-line-ending-normalised" recognises: CR before LF
+// c18normalise is the line-ending repair that the classifier of the (fixed,
+// hence inactive) finding "c18-legacy-line-ending-normalised" recognises: CR before LF
 // removed, missing final LF added. Nothing else.
 func c18normalise(s string) string {
 	s = strings.Replace(s, "\r\n", "\n", -1)
@@ -71,7 +71,7 @@ func TestVerifC18LegacyRewriteSignatures(t *testing.T) {
 		switch k := rapid.IntRange(0, 9).Draw(t, "answer"); {
 		case k <= 3:
 		case k <= 8:
-			tk := rapid.SampledFrom(fedgen.TamperKinds).Draw(t, "tamper")
+			tk := rapid.SampledFrom(append([]string{"whitespace"}, fedgen.TamperKinds...)).Draw(t, "tamper")
 			if tt, d := fedgen.Tamper(t, honest, tk); d != "" {
 				sent, ansKind, detail = tt, "tamper-"+tk, d
 			}
@@ -83,11 +83,14 @@ func TestVerifC18LegacyRewriteSignatures(t *testing.T) {
 		field := ref.PDH(sent)
 		fieldKind := "field-true"
 		switch rapid.IntRange(0, 5).Draw(t, "pdhField") {
-		case 0:
+		case 0, 1, 2:
+			// what a remote that wants its answer accepted would claim
 			if expect != "" {
 				field, fieldKind = expect, "field-as-requested"
+			} else {
+				field, fieldKind = truePDH, "field-of-stored"
 			}
-		case 1:
+		case 3:
 			field, fieldKind = truePDH, "field-of-stored"
 		}
 		body, err := json.Marshal(map[string]interface{}{
@@ -144,10 +147,12 @@ func TestVerifC18LegacyRewriteSignatures(t *testing.T) {
 				problems = append(problems, "relayed text differs from what was sent in more than +A -> +R"+clusterID+"-: "+fedgen.DiffTokens(got, want))
 			}
 			if len(problems) > 0 {
-				// Narrow classifier of the proposed known finding: the text
-				// sent differs from a text that does satisfy everything only
-				// in CR before LF / a missing final LF, and exactly that
-				// repaired text is what was relayed.
+				// Narrow classifier of a finding that was reported and then
+				// FIXED in /repo (dfaf52c): the text sent differs from a text
+				// that does satisfy everything only in CR before LF / a missing
+				// final LF, and exactly that repaired text is what was relayed.
+				// The key is not listed in known_findings.txt, so Known()
+				// returns false and a recurrence is a VIOLATION.
 				norm := c18normalise(sent)
 				isNorm := norm != sent &&
 					got == fedgen.RefRewrite(norm, clusterID) &&
